@@ -194,6 +194,18 @@ def run(chk, repo):
             tail_if = st
         elif isinstance(st, ast.If) and main_if is None and "hop" in unparse(st.test):
             pass            # a differently worded hop default: decided by the table below
+        elif isinstance(st, ast.For) and unparse(st.iter) == "seq" and main_if is not None and not main_if.orelse \
+                and main_if.body and isinstance(main_if.body[-1], ast.Return):
+            # one regime written as an early exit: ``if <regime>: <its loop> ; return`` followed by the other loop and the
+            # padding of the last block - which that regime then never reaches, unless it pads by itself
+            own_tail = any(isinstance(y_, (ast.Yield, ast.YieldFrom)) for s2_ in main_if.body
+                           if not isinstance(s2_, (ast.For, ast.While)) for y_ in ast.walk(s2_))
+            if own_tail:
+                raise AnalysisError("blocks: regimes written as an early exit with a tail of its own (not read)")
+            chk.bad("C08.blocks.tail", W("blocks"), "if %s: <loop> ; return" % unparse(main_if.test),
+                    "this regime leaves the generator right after its loop: the padding of an incomplete last block, "
+                    "written once after both loops, is skipped for it", node=main_if.body[-1])
+            raise AnalysisError("blocks: the other regime follows an early exit (rest of the function not read)")
         else:
             raise AnalysisError("blocks: unexpected statement '%s'" % short(st))
     # the default of hop, whatever its wording (decision table)
